@@ -46,16 +46,24 @@ NOINST static int isdef(const void *p, size_t n, const char *field) {
 	return 1;
 }
 /* integer-like field: print value or null if undefined */
-#define FI(s, key, lv) do { sb_put(s, "\"%s\":", key); if (isdef(&(lv), sizeof(lv), key)) sb_put(s, "%ld", (long)(lv)); else sb_put(s, "null"); } while (0)
+/* raw read (a bool holding garbage must be reported, not be undefined behaviour of the harness) */
+NOINST static long rdraw(const void *p, size_t n, int is_signed) {
+	unsigned char b[8] = {0}; memcpy(b, p, n > 8 ? 8 : n);
+	unsigned long long v = 0; for (size_t i = 0; i < n && i < 8; i++) v |= (unsigned long long)b[i] << (8 * i);
+	if (is_signed && n < 8 && (v >> (8 * n - 1)) & 1) v |= ~0ULL << (8 * n);
+	return (long)v;
+}
+#define FI(s, key, lv) do { sb_put(s, "\"%s\":", key); if (isdef(&(lv), sizeof(lv), key)) sb_put(s, "%ld", rdraw(&(lv), sizeof(lv), ((__typeof__(lv))-1) < 0)); else sb_put(s, "null"); } while (0)
+#define TRUTH(lv) (rdraw(&(lv), sizeof(lv), 0) != 0)
 #define FS(s, key, lv) do { sb_put(s, "\"%s\":", key); if (isdef(&(lv), sizeof(lv), key)) sb_str(s, (lv)); else sb_put(s, "null"); } while (0)
 #define COMMA(s) sb_put(s, ",")
 
 NOINST static void ser_pc(sb_t *s, t_bidib_power_consumption *pc) {
 	sb_put(s, "\"pc\":{");
 	FI(s, "known", pc->known);
-	if (isdef(&pc->known, sizeof pc->known, "known") && pc->known) {
+	if (isdef(&pc->known, sizeof pc->known, "known") && TRUTH(pc->known)) {
 		COMMA(s); FI(s, "overcurrent", pc->overcurrent);
-		if (isdef(&pc->overcurrent, sizeof pc->overcurrent, "overcurrent") && !pc->overcurrent) { COMMA(s); FI(s, "current", pc->current); }
+		if (isdef(&pc->overcurrent, sizeof pc->overcurrent, "overcurrent") && !TRUTH(pc->overcurrent)) { COMMA(s); FI(s, "current", pc->current); }
 	}
 	sb_put(s, "}");
 }
@@ -90,7 +98,7 @@ NOINST static void ser_reverser_data(sb_t *s, t_bidib_reverser_state_data *d) {
 }
 NOINST static void ser_decoder(sb_t *s, t_bidib_train_decoder_state *d) {
 	sb_put(s, "\"dec\":{");
-#define G(kn, k, v) FI(s, kn, d->k); if (isdef(&d->k, sizeof d->k, kn) && d->k) { COMMA(s); FI(s, #v, d->v); }
+#define G(kn, k, v) FI(s, kn, d->k); if (isdef(&d->k, sizeof d->k, kn) && TRUTH(d->k)) { COMMA(s); FI(s, #v, d->v); }
 	G("signal_quality_known", signal_quality_known, signal_quality) COMMA(s);
 	G("temp_known", temp_known, temp_celsius) COMMA(s);
 	G("energy_storage_known", energy_storage_known, energy_storage) COMMA(s);
@@ -116,9 +124,9 @@ NOINST static void ser_booster_data(sb_t *s, t_bidib_booster_state_data *d) {
 	FI(s, "power_state", d->power_state); COMMA(s); FI(s, "simple", d->power_state_simple); COMMA(s);
 	ser_pc(s, &d->power_consumption); COMMA(s);
 	FI(s, "voltage_known", d->voltage_known);
-	if (isdef(&d->voltage_known, sizeof d->voltage_known, "voltage_known") && d->voltage_known) { COMMA(s); FI(s, "voltage", d->voltage); }
+	if (isdef(&d->voltage_known, sizeof d->voltage_known, "voltage_known") && TRUTH(d->voltage_known)) { COMMA(s); FI(s, "voltage", d->voltage); }
 	COMMA(s); FI(s, "temp_known", d->temp_known);
-	if (isdef(&d->temp_known, sizeof d->temp_known, "temp_known") && d->temp_known) { COMMA(s); FI(s, "temp", d->temp_celsius); }
+	if (isdef(&d->temp_known, sizeof d->temp_known, "temp_known") && TRUTH(d->temp_known)) { COMMA(s); FI(s, "temp", d->temp_celsius); }
 }
 NOINST static void ser_idlist(sb_t *s, t_bidib_id_list_query *q) {
 	if (!isdef(&q->length, sizeof q->length, "length") || !isdef(&q->ids, sizeof q->ids, "ids")) { sb_put(s, "null"); return; }
@@ -132,7 +140,7 @@ NOINST static void ser_idlist(sb_t *s, t_bidib_id_list_query *q) {
 NOINST static void ser_unified(sb_t *s, const char *path, t_bidib_unified_accessory_state_query q) {
 	cur_path = path;
 	sb_put(s, "{"); FI(s, "known", q.known);
-	if (q.known) {
+	if (TRUTH(q.known)) {
 		COMMA(s); FI(s, "type", q.type); COMMA(s);
 		if (q.type == BIDIB_ACCESSORY_BOARD) ser_board_acc_data(s, &q.board_accessory_state); else ser_dcc_acc_data(s, &q.dcc_accessory_state);
 	} else {
@@ -154,40 +162,40 @@ NOINST static void single_getters(sb_t *s, const char *kind, const char *id, con
 		snprintf(path, sizeof path, "periph:%s", id ? id : "@null"); cur_path = path;
 		t_bidib_peripheral_state_query q = bidib_get_peripheral_state(id);
 		sb_put(s, "\"%s\":{", path); FI(s, "known", q.available);
-		if (q.available) { COMMA(s); ser_periph_data(s, &q.data); } else isdef(&q.data.state_id, sizeof(char *), "state_id(read by free)");
+		if (TRUTH(q.available)) { COMMA(s); ser_periph_data(s, &q.data); } else isdef(&q.data.state_id, sizeof(char *), "state_id(read by free)");
 		sb_put(s, "}");
 		bidib_free_peripheral_state_query(q);
 	} else if (!strcmp(kind, "segment")) {
 		snprintf(path, sizeof path, "segment:%s", id ? id : "@null"); cur_path = path;
 		t_bidib_segment_state_query q = bidib_get_segment_state(id);
 		sb_put(s, "\"%s\":{", path); FI(s, "known", q.known);
-		if (q.known) { COMMA(s); ser_segment_data(s, &q.data); } else isdef(&q.data.dcc_addresses, sizeof(void *), "dcc_addresses(read by free)");
+		if (TRUTH(q.known)) { COMMA(s); ser_segment_data(s, &q.data); } else isdef(&q.data.dcc_addresses, sizeof(void *), "dcc_addresses(read by free)");
 		sb_put(s, "}");
 		bidib_free_segment_state_query(q);
 	} else if (!strcmp(kind, "reverser")) {
 		snprintf(path, sizeof path, "reverser:%s", id ? id : "@null"); cur_path = path;
 		t_bidib_reverser_state_query q = bidib_get_reverser_state(id);
 		sb_put(s, "\"%s\":{", path); FI(s, "known", q.available);
-		if (q.available) { COMMA(s); ser_reverser_data(s, &q.data); } else isdef(&q.data.state_id, sizeof(char *), "state_id(read by free)");
+		if (TRUTH(q.available)) { COMMA(s); ser_reverser_data(s, &q.data); } else isdef(&q.data.state_id, sizeof(char *), "state_id(read by free)");
 		sb_put(s, "}");
 		bidib_free_reverser_state_query(q);
 	} else if (!strcmp(kind, "booster")) {
 		snprintf(path, sizeof path, "booster:%s", id ? id : "@null"); cur_path = path;
 		t_bidib_booster_state_query q = bidib_get_booster_state(id);
 		sb_put(s, "\"%s\":{", path); FI(s, "known", q.known);
-		if (q.known) { COMMA(s); ser_booster_data(s, &q.data); }
+		if (TRUTH(q.known)) { COMMA(s); ser_booster_data(s, &q.data); }
 		sb_put(s, "}");
 	} else if (!strcmp(kind, "to")) {
 		snprintf(path, sizeof path, "to:%s", id ? id : "@null"); cur_path = path;
 		t_bidib_track_output_state_query q = bidib_get_track_output_state(id);
 		sb_put(s, "\"%s\":{", path); FI(s, "known", q.known);
-		if (q.known) { COMMA(s); FI(s, "cs_state", q.cs_state); }
+		if (TRUTH(q.known)) { COMMA(s); FI(s, "cs_state", q.cs_state); }
 		sb_put(s, "}");
 	} else if (!strcmp(kind, "train")) {
 		snprintf(path, sizeof path, "train:%s", id ? id : "@null"); cur_path = path;
 		t_bidib_train_state_query q = bidib_get_train_state(id);
 		sb_put(s, "\"%s\":{", path); FI(s, "known", q.known);
-		if (q.known) { COMMA(s); ser_train_data(s, &q.data); } else isdef(&q.data.peripherals, sizeof(void *), "peripherals(read by free)");
+		if (TRUTH(q.known)) { COMMA(s); ser_train_data(s, &q.data); } else isdef(&q.data.peripherals, sizeof(void *), "peripherals(read by free)");
 		sb_put(s, "}");
 		bidib_free_train_state_query(q);
 		/* derived getters */
@@ -204,12 +212,12 @@ NOINST static void single_getters(sb_t *s, const char *kind, const char *id, con
 		snprintf(path, sizeof path, "speedstep:%s", id ? id : "@null"); cur_path = path;
 		t_bidib_train_speed_step_query ss = bidib_get_train_speed_step(id);
 		sb_put(s, ",\"%s\":{", path); FI(s, "known", ss.known_and_avail);
-		if (ss.known_and_avail) { COMMA(s); FI(s, "speed_step", ss.speed_step); COMMA(s); FI(s, "forwards", ss.is_forwards); }
+		if (TRUTH(ss.known_and_avail)) { COMMA(s); FI(s, "speed_step", ss.speed_step); COMMA(s); FI(s, "forwards", ss.is_forwards); }
 		sb_put(s, "}");
 		snprintf(path, sizeof path, "kmh:%s", id ? id : "@null"); cur_path = path;
 		t_bidib_train_speed_kmh_query sk = bidib_get_train_speed_kmh(id);
 		sb_put(s, ",\"%s\":{", path); FI(s, "known", sk.known_and_avail);
-		if (sk.known_and_avail) { COMMA(s); FI(s, "kmh", sk.speed_kmh); }
+		if (TRUTH(sk.known_and_avail)) { COMMA(s); FI(s, "kmh", sk.speed_kmh); }
 		sb_put(s, "}");
 		snprintf(path, sizeof path, "on_track:%s", id ? id : "@null"); cur_path = path;
 		bool ot = bidib_get_train_on_track(id);
@@ -217,15 +225,16 @@ NOINST static void single_getters(sb_t *s, const char *kind, const char *id, con
 		snprintf(path, sizeof path, "dccaddr:%s", id ? id : "@null"); cur_path = path;
 		t_bidib_dcc_address_query da = bidib_get_train_dcc_addr(id);
 		sb_put(s, ",\"%s\":{", path); FI(s, "known", da.known);
-		if (da.known) { COMMA(s); FI(s, "l", da.dcc_address.addrl); COMMA(s); FI(s, "h", da.dcc_address.addrh); COMMA(s); FI(s, "type", da.dcc_address.type); }
+		if (TRUTH(da.known)) { COMMA(s); FI(s, "l", da.dcc_address.addrl); COMMA(s); FI(s, "h", da.dcc_address.addrh); COMMA(s); FI(s, "type", da.dcc_address.type); }
 		sb_put(s, "}");
 		snprintf(path, sizeof path, "tperiphs:%s", id ? id : "@null");
+		COMMA(s);
 		IDLIST(s, path, bidib_get_train_peripherals(id)); sb_put(s, "%s", "");
 	} else if (!strcmp(kind, "tperiph")) {
 		snprintf(path, sizeof path, "tperiph:%s/%s", id ? id : "@null", id2 ? id2 : "@null"); cur_path = path;
 		t_bidib_train_peripheral_state_query q = bidib_get_train_peripheral_state(id, id2);
 		sb_put(s, "\"%s\":{", path); FI(s, "known", q.available);
-		if (q.available) { COMMA(s); FI(s, "state", q.state); }
+		if (TRUTH(q.available)) { COMMA(s); FI(s, "state", q.state); }
 		sb_put(s, "}");
 	} else if (!strcmp(kind, "board")) {
 		snprintf(path, sizeof path, "board:%s", id ? id : "@null"); cur_path = path;
@@ -233,7 +242,7 @@ NOINST static void single_getters(sb_t *s, const char *kind, const char *id, con
 		bool c = bidib_get_board_connected(id); sb_put(s, "\"connected\":%d,", (int)c);
 		t_bidib_unique_id_query u = bidib_get_uniqueid(id);
 		FI(s, "uid_known", u.known);
-		if (u.known) {
+		if (TRUTH(u.known)) {
 			sb_put(s, ",\"uid\":\"");
 			uint8_t *b = (uint8_t *)&u.unique_id; isdef(&u.unique_id, sizeof u.unique_id, "unique_id");
 			for (size_t i = 0; i < 7; i++) sb_put(s, "%02x", b[i]);
@@ -241,18 +250,18 @@ NOINST static void single_getters(sb_t *s, const char *kind, const char *id, con
 		}
 		t_bidib_node_address_query a = bidib_get_nodeaddr(id);
 		COMMA(s); FI(s, "addr_known", a.known_and_connected);
-		if (a.known_and_connected) { sb_put(s, ",\"addr\":{"); FI(s, "top", a.address.top); COMMA(s); FI(s, "sub", a.address.sub); COMMA(s); FI(s, "subsub", a.address.subsub); sb_put(s, "}"); }
-		if (u.known) {
+		if (TRUTH(a.known_and_connected)) { sb_put(s, ",\"addr\":{"); FI(s, "top", a.address.top); COMMA(s); FI(s, "sub", a.address.sub); COMMA(s); FI(s, "subsub", a.address.subsub); sb_put(s, "}"); }
+		if (TRUTH(u.known)) {
 			t_bidib_node_address_query a2 = bidib_get_nodeaddr_by_uniqueid(u.unique_id);
 			COMMA(s); FI(s, "addr2_known", a2.known_and_connected);
-			if (a2.known_and_connected) { sb_put(s, ",\"addr2\":{"); FI(s, "top", a2.address.top); COMMA(s); FI(s, "sub", a2.address.sub); COMMA(s); FI(s, "subsub", a2.address.subsub); sb_put(s, "}"); }
+			if (TRUTH(a2.known_and_connected)) { sb_put(s, ",\"addr2\":{"); FI(s, "top", a2.address.top); COMMA(s); FI(s, "sub", a2.address.sub); COMMA(s); FI(s, "subsub", a2.address.subsub); sb_put(s, "}"); }
 			t_bidib_id_query iq = bidib_get_board_id(u.unique_id);
-			COMMA(s); FI(s, "id_known", iq.known); if (iq.known) { COMMA(s); FS(s, "id_by_uid", iq.id); }
+			COMMA(s); FI(s, "id_known", iq.known); if (TRUTH(iq.known)) { COMMA(s); FS(s, "id_by_uid", iq.id); }
 			bidib_free_id_query(iq);
-			if (a.known_and_connected) {
+			if (TRUTH(a.known_and_connected)) {
 				t_bidib_unique_id_query u2 = bidib_get_uniqueid_by_nodeaddr(a.address);
 				COMMA(s); FI(s, "uid_by_addr_known", u2.known);
-				if (u2.known) { sb_put(s, ",\"uid_by_addr\":\""); uint8_t *b = (uint8_t *)&u2.unique_id; for (size_t i = 0; i < 7; i++) sb_put(s, "%02x", b[i]); sb_put(s, "\""); }
+				if (TRUTH(u2.known)) { sb_put(s, ",\"uid_by_addr\":\""); uint8_t *b = (uint8_t *)&u2.unique_id; for (size_t i = 0; i < 7; i++) sb_put(s, "%02x", b[i]); sb_put(s, "\""); }
 			}
 		}
 		t_bidib_board_features_query f = bidib_get_board_features(id);
@@ -360,10 +369,10 @@ NOINST static char *build_snapshot(int with_unknown) {
 		t_bidib_id_list_query t = bidib_get_trains();
 		for (size_t i = 0; i < t.length; i++) {
 			t_bidib_dcc_address_query da = bidib_get_train_dcc_addr(t.ids[i]);
-			if (da.known) {
+			if (TRUTH(da.known)) {
 				t_bidib_id_query iq = bidib_get_train_id(da.dcc_address);
 				char path[256]; snprintf(path, sizeof path, "train_by_addr:%s", t.ids[i]); cur_path = path;
-				sb_put(s, ",\"%s\":", path); if (iq.known) sb_str(s, iq.id); else sb_put(s, "null");
+				sb_put(s, ",\"%s\":", path); if (TRUTH(iq.known)) sb_str(s, iq.id); else sb_put(s, "null");
 				bidib_free_id_query(iq);
 			}
 		}
